@@ -13,7 +13,7 @@ N5      transfer window: the kernel call gets buf+bufpos / buflen-bufpos, the
 """
 from .. import cdb, ir, report, lin
 from ..ir import norm, show, root_var, subterms
-from ..dataflow import cond_atoms
+from ..dataflow import cond_atoms, Solver
 
 UNITS = {
     "network/network_read.c": ("network_read_cookie", (), "network_read", "network_read_cancel"),
@@ -423,6 +423,174 @@ def closed_fd_rule(prog, rep):
     return n
 
 
+def close_registered_rule(prog, rep):
+    """A descriptor is closed only when nothing is registered for it any more: closing does not take the descriptor out of
+    the event loop's tables, so the next socket created (which gets the same number) cannot be registered, or the stale
+    pollfd entry answers POLLNVAL.  Interprocedural typestate over each unit that both registers and closes a descriptor kept
+    in its request: `pending` after a successful events_network_register for it, `none` after events_network_cancel, in the
+    network handler itself (the event that called it was consumed), after a failed registration, and for a fresh request or
+    descriptor; every other handler (timer, immediate) and every public function starts `pending`.  At every close: `none`."""
+    n = 0
+    for up in UNITS:
+        u = prog.unit(up)
+        funcs = [f for f in u.funcs if f.file == up]
+        regs = [(f, c) for f in funcs for c in f.calls("events_network_register") if norm(c.arg(2))[0] == "."]
+        closes = [(f, c) for f in funcs for c in f.calls("close") if norm(c.arg(0))[0] == "."]
+        if not regs or not closes:
+            continue
+        fld = norm(regs[0][1].arg(2))[2]
+        handlers = set(norm(c.arg(0))[1] for _, c in regs if norm(c.arg(0))[0] == "fn")
+        byname = {f.name: f for f in funcs}
+
+        def is_fd(t):
+            return t[0] == "." and t[2] == fld
+        entry = {f.name: ("none" if f.name in handlers else None) for f in funcs}
+        exitst = {f.name: None for f in funcs}
+        callers = {f.name: [] for f in funcs}
+        for f in funcs:
+            for c in f.calls():
+                if c.callee in byname and c.callee != f.name:
+                    callers[c.callee].append((f, c))
+        for f in funcs:
+            if entry[f.name] is None and (not f.static or not callers[f.name]):
+                entry[f.name] = "pending"
+        J = lambda a, b: a if a == b else ("pending" if "pending" in (a, b) and None not in (a, b) else (a if b is None else (b if a is None else "pending")))
+        solvers = {}
+        for _ in range(6):
+            changed = False
+            for f in funcs:
+                if entry[f.name] is None:
+                    continue
+
+                def transfer(st, e, f=f):
+                    if e.is_assign and e.op == "=":
+                        t = norm(e.kid(0))
+                        if is_fd(t):
+                            return "none"
+                        r = e.kid(1).strip() if e.kid(1) is not None else None
+                        if t[0] == "v" and r is not None and r.cls == "CallExpr" and r.callee in ("malloc", "calloc"):
+                            return "none"       # a fresh request
+                        return st
+                    if e.cls == "CallExpr" and e.callee:
+                        if e.callee == "events_network_cancel" and is_fd(norm(e.arg(0))):
+                            return "none"
+                        if e.callee == "events_network_register" and is_fd(norm(e.arg(2))):
+                            return "pending"
+                        if e.callee == "close" and is_fd(norm(e.arg(0))):
+                            return "none"
+                        if e.callee in byname and e.callee != f.name:
+                            x = exitst.get(e.callee)
+                            return x if x is not None else st
+                    return st
+
+                def refine(st, cond, kind):
+                    if kind in (True, False):
+                        for op, L, R, Le, Re in cond_atoms(cond, kind):
+                            ce = Le.strip() if Le is not None else None
+                            if ce is not None and ce.cls == "CallExpr" and ce.callee == "events_network_register" and R == ("c", 0) and op == "!=":
+                                return "none"       # the registration failed: nothing was registered
+                    return st
+                sv = Solver(f, entry[f.name], transfer, refine, lambda a, b: a if a == b else "pending").run()
+                solvers[f.name] = sv
+                outs = [sv.state_before(r) for r in f.returns()]
+                outs = [x for x in outs if x is not None]
+                if not f.returns() and sv.IN.get(f.exit) is not None:
+                    outs.append(sv.IN.get(f.exit))
+                ex = None
+                for x in outs:
+                    ex = x if ex is None else (ex if ex == x else "pending")
+                if ex != exitst[f.name]:
+                    exitst[f.name] = ex
+                    changed = True
+                for c in f.calls():
+                    if c.callee in byname and c.callee != f.name and byname[c.callee].static and c.callee not in handlers:
+                        st = sv.state_before(c)
+                        if st is None:
+                            continue
+                        new = st if entry[c.callee] is None else (entry[c.callee] if entry[c.callee] == st else "pending")
+                        if new != entry[c.callee]:
+                            entry[c.callee] = new
+                            changed = True
+            if not changed:
+                break
+        for f, c in closes:
+            if not is_fd(norm(c.arg(0))):
+                continue
+            n += 1
+            sv = solvers.get(f.name)
+            st = sv.state_before(c) if sv is not None else None
+            rep.check(st in (None, "none"), "N4", "%s in %s: nothing is registered for the descriptor when it is closed" % (c.text[:30], f.name), c.where,
+                      "a path reaches this close with the events_network registration for %s still in place (no events_network_cancel since it was made): "
+                      "the event loop keeps a closed descriptor in its tables" % show(norm(c.arg(0))), function=f.name, construct="close-registered")
+    return n
+
+
+def handle_clear_rule(prog, rep, only_files):
+    """The handle of an operation that has completed is dropped before anything can cancel through it.  For every request
+    field F stored from a starter that is given a completion callback (F = network_connect(.., cb, H), F =
+    events_timer_register(cb, ..), ...): inside cb, on every path, F is overwritten before any call to a function of the unit
+    that (transitively) reads F, and before cb returns.  (The operation's own cookie is released by its module once cb
+    returns; a cancel through the stale handle releases it a second time.)"""
+    from .. import own
+    acq = own.discover_acquirers(prog)
+    n = 0
+    for up in only_files:
+        u = prog.unit(up)
+        funcs = [f for f in u.funcs if f.file == up]
+        byname = {f.name: f for f in funcs}
+        pairs = []
+        for f in funcs:
+            for e in f.all_elems():
+                if e.is_assign and e.op == "=" and norm(e.kid(0))[0] == ".":
+                    r = e.kid(1).strip() if e.kid(1) is not None else None
+                    if r is not None and r.cls == "CallExpr" and r.callee in acq and acq[r.callee] and any(x.endswith("_cancel") for x in acq[r.callee]):
+                        # the completion callback: the function argument that is followed by the request itself
+                        args = [norm(a) if a is not None else ("?",) for a in r.args]
+                        for i, a in enumerate(args):
+                            if a[0] == "fn" and a[1] in byname and i + 1 < len(args) and args[i + 1][0] == "v":
+                                pairs.append((norm(e.kid(0))[2], byname[a[1]], r.callee))
+        # which functions read a field (transitively)
+        def reads(fld):
+            direct = set()
+            for f in funcs:
+                for e in f.all_elems():
+                    if e.cls == "MemberExpr" and e.decl and e.decl.get("name") == fld:
+                        direct.add(f.name)
+            ch = True
+            while ch:
+                ch = False
+                for f in funcs:
+                    if f.name not in direct and any(c.callee in direct for c in f.calls() if c.callee):
+                        direct.add(f.name)
+                        ch = True
+            return direct
+        for fld, cb, starter in sorted(set(pairs), key=lambda x: (x[0], x[1].name)):
+            n += 1
+            users = reads(fld) - {cb.name}
+
+            def tr(st, e, fld=fld):
+                if e.is_assign and e.op == "=" and norm(e.kid(0))[0] == "." and norm(e.kid(0))[2] == fld:
+                    return True
+                if e.cls == "CallExpr" and e.callee == "free" and e.arg(0) is not None and norm(e.arg(0))[0] == "v":
+                    return True       # the request itself is released: the handle goes with it
+                return st
+            sv = Solver(cb, False, tr, None, lambda a, b: a and b).run()
+            bad = None
+            for c in cb.calls():
+                if c.callee in users and sv.state_before(c) is False:
+                    bad = (c, "%s() may reach a cancel through it" % c.callee)
+                    break
+            if bad is None:
+                for r in cb.returns():
+                    if sv.state_before(r) is False:
+                        bad = (r, "the callback returns")
+                        break
+            rep.check(bad is None, "SLOT", "%s: %s (from %s) is dropped before anything can cancel through it" % (cb.name, fld, starter), (bad[0].where if bad else cb.loc),
+                      "the operation that stored its handle in %s has completed, but on some path the field still holds it when %s" % (fld, bad[1]) if bad else "",
+                      function=cb.name, construct="stale-handle:" + fld)
+    return n
+
+
 def n5(prog, rep, up, L):
     u = prog.unit(up)
     sysc = SYSCALL[up]
@@ -590,6 +758,16 @@ def run(tier):
         n4(prog, rep)
         if closed_fd_rule(prog, rep) < 1:
             rep.defer_broken("N4: no close() of a descriptor kept in a request found")
+        if handle_clear_rule(prog, rep, ["network/network_connect.c"]) < 2:
+            rep.defer_broken("SLOT: fewer than 2 (handle field, completion callback) pairs found in network_connect.c")
+        if close_registered_rule(prog, rep) < 3:
+            rep.defer_broken("N4: fewer than 3 close() calls of a registered descriptor found")
+        # the registration itself (events_network.c is among this property's anchors): operation / slot / poll-bit mapping, bits of
+        # the mask only added by a registration and only cleared by clearbit (rules shared with C04)
+        from . import c04
+        enp = ir.Program(["events/events_network.c"], cfg)
+        c04.o4_o5(enp, rep)
+        c04.o7_slotrange(enp, rep)
         # a failed registration leaves nothing registered (shared with C14): C06's requests register in events_network.c
         from . import c14
         c14.register_atomic_rule(ir.Program(["events/events_network.c"], cfg), rep)
